@@ -19,6 +19,10 @@
 // search, write, read to the view's user, and the operands of every view
 // include several spellings of the view's own root (ops.go: actorSpec).
 //
+// One view of the start state (V3, full alphabet) is rooted at a directory
+// that never had an entry (ops.go: freshDir): a container that was never used
+// is internally another object than one that was emptied.
+//
 // The same alphabet is explored on Windows-typed file systems (systems
 // "Windows:<variant>", build tag avfs_setostype, ostype.go): paths with volume,
 // rooted paths without volume, relative paths after a Chdir through the view
@@ -343,7 +347,9 @@ func main() {
 				"; absolute, dot-dot and relative operands, the view's own root spelled '/', '/.', '/q/..', '/..', '..'; SetUser/SetUMask/Chdir per view; parent-side rename/removal of view roots; " +
 				"Chmod of the directories views are rooted at to 0700 and (full alphabet) 0766/0755/0733, through the parent and through the view; " +
 				"re-creation of every view by 'V = receiver.Sub(spelling)' from the parent and from a view, spellings absolute clean, absolute with '.' and '..', and '.', '..', name relative to the receiver's working directory, " +
-				"followed by an independence probe: SetUMask, SetUser and Chdir applied to the new view and to its receiver, User/UMask/Getwd of all other actors compared), each executed on the real MemFS and in lock-step on a twin parent with prefixed paths; " +
+				"followed by an independence probe: SetUMask, SetUser and Chdir applied to the new view and to its receiver, User/UMask/Getwd of all other actors compared; " +
+				"full alphabet: the start state holds a directory that NEVER had an entry (" + freshDir + ") with a view V3 on it - creations, removals, Chdir and reads through V3 on '/', '/new', '/new/sub', 'new', Rename/Link inside it and to '/../new', chmod of its root to the modes above, SetUser/SetUMask, 'V3 = parent.Sub' spelled absolute and relative; " +
+				"the parent removes (Remove, RemoveAll, directly or through RemoveAll of the directory above), renames, chmods (0700) and populates that directory, the view of '/' removes and chmods it), each executed on the real MemFS and in lock-step on a twin parent with prefixed paths; " +
 				"systems Windows:<variant>: the same alphabet spelled for Windows-typed file systems (volume C:, backslashes; the parent holds a second volume D: with directory v and file v\\w) plus the operands that exist there only, as operands of every call, of Rename/Link and of Sub, through parent, view, nested view and the view of the root: " +
 				"rooted paths without volume (`\\`, `\\q\\f`, `\\..\\o\\h`, `\\new`), '/' as separator (`C:/q/f`), paths of the other volume (`D:\\`, `D:\\v`, `D:\\v\\w`, `D:\\new`, and `D:\\q\\f`, `D:\\f` whose remainder exists below the view's root); every view is probed at creation for what the volume names mean inside it (signature field volumes); " +
 				"distinct_nontrivial = distinct (actor kind, call, twin outcome kind) classes observed on transitions",
@@ -365,6 +371,8 @@ func main() {
 			"the modes enumerated for a view's root differ from 0777 in the group and others classes only (the view roots of the start state belong to the administrator, the non-admin users u1 and u2 are 'others' there); a refusal to the owner class arises only where a history lets a non-admin user create the directory a view is then rooted at",
 			"FileInfo.Name() of the view's root is not compared (a root has no name inside its own namespace); mtimes and file ids are not compared",
 			"state key = injected node-graph dump of the parent (VerifDump: names, types, modes, owners, link classes, bytes) + User/UMask/Getwd of every actor + chdir-done flag + directory and location of every view root; a Sub step always rebuilds the instance",
+			"the directory " + freshDir + " of the start state is created by one Mkdir and nothing is ever created in it before the history starts (the probes run on the views at creation only read): every other directory a view is rooted at contains an entry or did once. The state key does not tell a directory that never had an entry from one that was emptied again (no public call does); the search keeps the shortest history of a state, so the start state and the states reached by removing, renaming or chmod-ing that directory are explored with the never populated one. The core alphabet (one level deeper) has no operand in that directory; in the users@/ systems V3 acts as u1 with umask 077",
+			"a call that succeeds through a view whose root node is unreachable from the parent's root and is not read-only changes something no dump shows: the instance is rebuilt after it, so that the next call tried from the same state does not meet what it left behind",
 			"symlinks are outside the property and not in the alphabet",
 			"Windows-typed systems are the library's own emulation (memfs.Options.OSType = avfs.OsWindows, build tag avfs_setostype) on a Linux host with a Linux-typed MemIdm (users root, u1, u2 as on the Linux type); the harness keeps its model (working directories, view roots, dump lines, twin paths) in slash form on the default volume for both OS types and translates at the call boundary; the Linux-typed systems are untouched by this (same alphabet, same counts)",
 			"Windows-typed: a view path with the default volume (`C:\\x`) corresponds to the parent path dir+`\\x`; the views of the alphabet are rooted on the default volume and the parent's working directory stays there (no Chdir of the parent to D:), because the statement does not say what volume name a view rooted on another volume shows",
